@@ -803,6 +803,7 @@ def _run_object_table(ctx, rid, it, table, home_rel, only=None):
         r.analysed(f)
         bad = []
         unsupported = None
+        paths = 0
         for O in outers:
             if len(O) < spec.get("min_rank", 0):
                 continue
@@ -829,8 +830,8 @@ def _run_object_table(ctx, rid, it, table, home_rel, only=None):
                     return mk(x, ctx.p.get_class(x.get("rel", home_rel),
                                                  x["cls"]))
                 return x
-            a = [arg(x) for x in args]
-            try:
+            def one_path():
+                a = [arg(x) for x in args]
                 got = it.call_node(
                     f.node, ([] if spec.get("static") or cls is None
                              else [mk()]) + a,
@@ -867,6 +868,8 @@ def _run_object_table(ctx, rid, it, table, home_rel, only=None):
                     if gs != tuple(w):
                         raise ShapeError(f"result shape {gs}, expected "
                                          f"{tuple(w)}")
+            try:
+                paths += it.explore_paths(one_path)
             except (ShapeError, DataDependent) as e:
                 bad.append((O, str(e)))
             except AttributeErrorSim as e:
